@@ -386,3 +386,175 @@ Example ex_reflect_prog :
   run_range ex_sch (fun i _ => Nat.ltb i 3) (canon_range ex_sch 0) h2 x =
     Some (h2, PRange [ (0, PScalar (VInt 5)); (2, PMsg 0 (Some 3)); (3, PList (TScalar KInt64) (RField 0 3)) ]).
 Proof. vm_compute. repeat split; reflexivity. Qed.
+
+(* ---- the canonical list / map wrapper methods are Reflect.step -------------------------------------------------- *)
+(* The methods  Len Get Set Append AppendMutable Truncate NewElement IsValid  of the wrapper type of every repeated field and
+   Len Range Has Clear Get Set Mutable NewValue IsValid  of the wrapper type of every map field, as the templates list.go / map.go
+   print them (Model/ReflectViewProg.v: canon_list, canon_map, compared literally with the parsed *.pulsar.go on every run),
+   executed by the interpreter of their statement language, compute Reflect.step: for every well-formed schema, every heap
+   satisfying rp_heap_okb, every view (of a struct field, of a stand-alone variable, or the invalid nil view) and operands.
+   Side conditions (each with a counterexample in Model/ReflectViewProg.v): the view of Len / Range is live (view_liveb), a value /
+   key unwrapped with .String() is a string (str_val_okb / str_key_okb: vp_op_okb). After a panic the interpreter's heap may hold
+   the object allocated before the panicking statement (vp_res_rel). Proofs: Proofs/ReflectViewProgProofs.v. *)
+From CP Require Import ReflectViewProg ReflectViewProgProofs.
+
+Theorem list_isvalid_prog_correct : list_isvalid_prog_stmt.
+Proof. exact ReflectViewProgProofs.list_isvalid_prog_correct. Qed.
+
+Theorem list_len_prog_correct : list_len_prog_stmt.
+Proof. exact ReflectViewProgProofs.list_len_prog_correct. Qed.
+
+Theorem list_get_prog_correct : list_get_prog_stmt.
+Proof. exact ReflectViewProgProofs.list_get_prog_correct. Qed.
+
+Theorem list_newelement_prog_correct : list_newelement_prog_stmt.
+Proof. exact ReflectViewProgProofs.list_newelement_prog_correct. Qed.
+
+Theorem list_set_prog_correct : list_set_prog_stmt.
+Proof. exact ReflectViewProgProofs.list_set_prog_correct. Qed.
+
+Theorem list_append_prog_correct : list_append_prog_stmt.
+Proof. exact ReflectViewProgProofs.list_append_prog_correct. Qed.
+
+Theorem list_truncate_prog_correct : list_truncate_prog_stmt.
+Proof. exact ReflectViewProgProofs.list_truncate_prog_correct. Qed.
+
+(* AppendMutable: list_appendmutable_prog_stmt (no hypothesis on the view) is FALSE. `v := new(T)` is executed before `*x.list` is
+   read: a dangling view that points one past the end of the heap, at a repeated field of the message type allocated, comes alive.
+   Counterexample: message 0 = { repeated message 0 f }, the empty heap, the view RField 0 0: Reflect.step answers ([], PPanic), the
+   generated method stores the new object in its own field and returns it. No history produces such a view (vp_view_live_kept,
+   vp_result_live below); for live views — in general, whenever the allocation does not revive the view — the statement holds. *)
+Theorem list_appendmutable_prog_stmt_false : ~ list_appendmutable_prog_stmt.
+Proof. exact ReflectViewProgProofs.list_appendmutable_prog_stmt_false. Qed.
+
+Theorem list_appendmutable_prog_partial : forall sch h t r, wf sch = true -> rp_heap_okb sch h = true ->
+  view_liveb h (PList t r) = true -> vp_agrees sch h (OLAppendMutable (PList t r)).
+Proof. exact ReflectViewProgProofs.list_appendmutable_prog_partial. Qed.
+
+Theorem list_appendmutable_prog_gen : forall sch h t r, wf sch = true -> rp_heap_okb sch h = true ->
+  (forall m, t = TMsg m -> read_list h r = None -> read_list (h ++ [HObj (new_obj sch m)]) r = None) ->
+  vp_agrees sch h (OLAppendMutable (PList t r)).
+Proof. exact ReflectViewProgProofs.list_appendmutable_prog_gen. Qed.
+
+Theorem map_isvalid_prog_correct : map_isvalid_prog_stmt.
+Proof. exact ReflectViewProgProofs.map_isvalid_prog_correct. Qed.
+
+Theorem map_len_prog_correct : map_len_prog_stmt.
+Proof. exact ReflectViewProgProofs.map_len_prog_correct. Qed.
+
+Theorem map_newvalue_prog_correct : map_newvalue_prog_stmt.
+Proof. exact ReflectViewProgProofs.map_newvalue_prog_correct. Qed.
+
+Theorem map_has_prog_correct : map_has_prog_stmt.
+Proof. exact ReflectViewProgProofs.map_has_prog_correct. Qed.
+
+Theorem map_get_prog_correct : map_get_prog_stmt.
+Proof. exact ReflectViewProgProofs.map_get_prog_correct. Qed.
+
+Theorem map_clear_prog_correct : map_clear_prog_stmt.
+Proof. exact ReflectViewProgProofs.map_clear_prog_correct. Qed.
+
+Theorem map_set_prog_correct : map_set_prog_stmt.
+Proof. exact ReflectViewProgProofs.map_set_prog_correct. Qed.
+
+Theorem map_mutable_prog_correct : map_mutable_prog_stmt.
+Proof. exact ReflectViewProgProofs.map_mutable_prog_correct. Qed.
+
+Theorem map_range_prog_correct : map_range_prog_stmt.
+Proof. exact ReflectViewProgProofs.map_range_prog_correct. Qed.
+
+(* Map.Range with any callback: the calls of the full iteration up to and including the first one answered false *)
+Theorem map_range_stop_prog_correct : map_range_stop_prog_stmt.
+Proof. exact ReflectViewProgProofs.map_range_stop_prog_correct. Qed.
+
+(* all at once. view_prog_correct_stmt is FALSE by the counterexample of AppendMutable (vp_op_okb asks nothing of its view); it holds
+   with the view of AppendMutable live, as the view of Len has to be *)
+Theorem view_prog_correct_stmt_false : ~ view_prog_correct_stmt.
+Proof. exact ReflectViewProgProofs.view_prog_correct_stmt_false. Qed.
+
+Theorem view_prog_correct_partial : forall sch h o, wf sch = true -> rp_heap_okb sch h = true -> vp_op_okb h o = true ->
+  (forall v, o = OLAppendMutable v -> view_liveb h v = true) -> vp_agrees sch h o.
+Proof. exact ReflectViewProgProofs.view_prog_correct_partial. Qed.
+
+(* the wrapper the plugin emits for a field is the canonical wrapper of the field's element (key, value) type *)
+Theorem canon_view_correct : canon_view_stmt.
+Proof. exact ReflectViewProgProofs.canon_view_correct. Qed.
+
+(* liveness of views is an invariant of histories: kept by every step, and true of every view a step returns *)
+Theorem vp_view_live_kept : vp_view_live_kept_stmt.
+Proof. exact ReflectViewProgProofs.vp_view_live_kept. Qed.
+
+Theorem vp_result_live : vp_result_live_stmt.
+Proof. exact ReflectViewProgProofs.vp_result_live. Qed.
+
+(* non-vacuity. message 0: l repeated message 1; m map<string, message 1>; n repeated int32. message 1: x int32.
+   heap: object 0 = {l: [object 1], m: {"k": object 1}, n: nil}; object 1 = empty. NewField n allocates the stand-alone slice 2.
+   On the stand-alone list: Append 7, Append 8, Truncate 1. On the view of l: AppendMutable (object 3 is allocated and appended),
+   Truncate 1 (the zeroing loop). On the view of m: Set "j" := object 3, Get "j", Mutable "z" (object 4 is allocated and stored),
+   Clear "k", Range, Range stopped by the callback at "j". On the invalid nil view: Len = 0, Map.Get = invalid, and AppendMutable
+   panics after `v := new(T)`: the interpreter's heap holds the garbage object, Reflect.step's does not (vp_res_rel). *)
+Example ex_reflect_view_prog :
+  let ex_sch : schema :=
+  [ {| m_fields := [ {| f_num := 1; f_ty := TMsg 1; f_shape := Rep false |};
+                     {| f_num := 2; f_ty := TMsg 1; f_shape := MapOf KString |};
+                     {| f_num := 3; f_ty := TScalar KInt32; f_shape := Rep true |} ];
+       m_oneofs := 0; m_impl := Pulsar |};
+    {| m_fields := [ {| f_num := 1; f_ty := TScalar KInt32; f_shape := Singular |} ]; m_oneofs := 0; m_impl := Pulsar |} ] in
+  let kk := VBytes [Coq.Init.Byte.x6b] in
+  let kj := VBytes [Coq.Init.Byte.x6a] in
+  let kz := VBytes [Coq.Init.Byte.x7a] in
+  let h0 : heap :=
+    [ HObj (mkObj 0 [ CList (Some [EPtr (Some 1)]); CMap (Some [(kk, EPtr (Some 1))]); CList None ] [] None);
+      HObj (new_obj ex_sch 1) ] in
+  let x := PMsg 0 (Some 0) in
+  let lv := PList (TScalar KInt32) (RVar 2) in
+  let ml := PList (TMsg 1) (RField 0 0) in
+  let mv := PMap KString (TMsg 1) (RField 0 1) in
+  let nl := PList (TMsg 1) RNil in
+  let nm := PMap KString (TMsg 1) RNil in
+  let o1 := OLAppend lv (PScalar (VInt 7)) in
+  let o2 := OLAppend lv (PScalar (VInt 8)) in
+  let o3 := OLTruncate lv 1 in
+  let o4 := OLAppendMutable ml in
+  let o5 := OLTruncate ml 1 in
+  let o6 := OMSet mv kj (PMsg 1 (Some 3)) in
+  let o7 := OMGet mv kj in
+  let o8 := OMMutable mv kz in
+  let o9 := OMClear mv kk in
+  let h1 := fst (step ex_sch h0 (ONewField x 2)) in
+  let h2 := fst (step ex_sch h1 o1) in
+  let h3 := fst (step ex_sch h2 o2) in
+  let h4 := fst (step ex_sch h3 o3) in
+  let h5 := fst (step ex_sch h4 o4) in
+  let h6 := fst (step ex_sch h5 o5) in
+  let h7 := fst (step ex_sch h6 o6) in
+  let h8 := fst (step ex_sch h7 o8) in
+  let h9 := fst (step ex_sch h8 o9) in
+  wf ex_sch = true /\ rp_heap_okb ex_sch h0 = true /\ rp_heap_okb ex_sch h9 = true /\
+  snd (step ex_sch h0 (ONewField x 2)) = lv /\
+  view_liveb h1 lv = true /\ view_liveb h1 ml = true /\ view_liveb h1 mv = true /\ view_liveb h1 nl = true /\
+  view_liveb h0 lv = false /\
+  canon_view ex_sch 0 0 = Some (VPList (canon_list (TMsg 1))) /\
+  canon_view ex_sch 0 1 = Some (VPMap (canon_map KString (TMsg 1))) /\
+  vp_agrees ex_sch h1 o1 /\ vp_agrees ex_sch h2 o2 /\ vp_agrees ex_sch h3 o3 /\ vp_agrees ex_sch h4 o4 /\
+  vp_agrees ex_sch h5 o5 /\ vp_agrees ex_sch h6 o6 /\ vp_agrees ex_sch h7 o7 /\ vp_agrees ex_sch h7 o8 /\
+  vp_agrees ex_sch h8 o9 /\ vp_agrees ex_sch h9 (OMRange mv) /\ vp_agrees ex_sch h9 (OLLen nl) /\ vp_agrees ex_sch h9 (OMGet nm kk) /\
+  read_list h3 (RVar 2) = Some (Some [EScalar (VInt 7); EScalar (VInt 8)]) /\
+  read_list h4 (RVar 2) = Some (Some [EScalar (VInt 7)]) /\
+  vp_canon_step ex_sch h4 o4 = Some (h5, PMsg 1 (Some 3)) /\
+  read_list h5 (RField 0 0) = Some (Some [EPtr (Some 1); EPtr (Some 3)]) /\
+  get_obj h5 3 = Some (new_obj ex_sch 1) /\
+  read_list h6 (RField 0 0) = Some (Some [EPtr (Some 1)]) /\
+  vp_canon_step ex_sch h7 o7 = Some (h7, PMsg 1 (Some 3)) /\
+  vp_canon_step ex_sch h7 o8 = Some (h8, PMsg 1 (Some 4)) /\
+  read_map h8 (RField 0 1) = Some (Some [(kk, EPtr (Some 1)); (kj, EPtr (Some 3)); (kz, EPtr (Some 4))]) /\
+  read_map h9 (RField 0 1) = Some (Some [(kj, EPtr (Some 3)); (kz, EPtr (Some 4))]) /\
+  vp_canon_step ex_sch h9 (OMRange mv) = Some (h9, PMapRange [(kj, PMsg 1 (Some 3)); (kz, PMsg 1 (Some 4))]) /\
+  run_maprange ex_sch (fun k _ => negb (rp_val_eqb k kj)) (canon_map KString (TMsg 1)) h9 mv =
+    Some (h9, PMapRange [(kj, PMsg 1 (Some 3))]) /\
+  vp_canon_step ex_sch h9 (OLLen nl) = Some (h9, PScalar (VInt 0)) /\
+  vp_canon_step ex_sch h9 (OMGet nm kk) = Some (h9, PInvalid) /\
+  vp_canon_step ex_sch h9 (OLAppendMutable nl) = Some (h9 ++ [HObj (new_obj ex_sch 1)], PPanic) /\
+  step ex_sch h9 (OLAppendMutable nl) = (h9, PPanic) /\
+  view_prog_law ex_sch h9 (OLAppendMutable nl) = true.
+Proof. vm_compute. repeat split; reflexivity. Qed.
